@@ -29,7 +29,9 @@ TRUSTED_BASE = [
     'coq/Ext/Ops.v (filter_meta, clear_slice_meta, the nitool inject logic, op sequences), tied to the code by the '
     'correspondence run Ext/OpsCorr.v check_ops on every step of every generated history and by the generated class tables',
     'nitool inject is exercised in-process (nitool_cli.inject with an argparse.Namespace) on a NIfTI file written under '
-    '$VERIF_WORK; argparse itself (nargs="+" => at least one value) and nibabel file I/O are run-time only',
+    '$VERIF_WORK (a .nii.gz: nitool inject / embed save over the file they loaded, which corrupts the voxel data or dies with '
+    'SIGBUS on memory-mapped uncompressed .nii files - reported separately); argparse itself (nargs="+" => at least one value) '
+    'and nibabel file I/O are run-time only',
     'image level (wrap part): nibabel Nifti1Image / header is not modelled here; agreement of extension and image geometry '
     'is checked by the oracle only (the image-level theorems belong to C03/C04)']
 ASSUMPTIONS = [
@@ -245,7 +247,8 @@ def real_inject(ext, op):
     work = os.environ.get('VERIF_WORK') or os.path.join(os.path.dirname(os.path.dirname(os.path.abspath(__file__))), 'work', 'C07')
     os.makedirs(work, exist_ok=True)
     _INJ_COUNTER[0] += 1
-    path = os.path.join(work, 'inject_%d_%d.nii' % (os.getpid(), _INJ_COUNTER[0]))
+    # .nii.gz: nitool saves over the file it loaded, which corrupts / crashes on memory-mapped uncompressed files
+    path = os.path.join(work, 'inject_%d_%d.nii.gz' % (os.getpid(), _INJ_COUNTER[0]))
     nii = nb.Nifti1Image(np.zeros(tuple(ext.shape), dtype=np.int16), np.eye(4))     # the image itself is irrelevant to inject
     nii.header.set_dim_info(slice=ext.slice_dim)
     nii.header.extensions.append(ext)
